@@ -3,6 +3,7 @@ import math
 import random
 
 from vpm import history
+from vpm.mon import rt
 from vpm import seams
 from vpm.oracles import sphere as sp
 
@@ -160,7 +161,7 @@ def call_finder(fi, jd):
     from pymeeus.Epoch import Epoch
     from pymeeus.Moon import Moon
     meth, target, kind = FINDERS[fi]
-    out = getattr(Moon, meth)(Epoch(jd), target)
+    out = getattr(Moon, meth)(Epoch(jd), rt(target))
     extra = None
     if isinstance(out, tuple):
         extra = out[1]
